@@ -107,7 +107,8 @@ def ob_abandon(pulls: int, pos0: int, pk: int) -> bool:
     ordered = H.P("return_as") == "generator"
     with H.native():
         n = 6
-        calls = [dict(n_tasks=n, pulls=pl, end=["close", "drop", "exhaust"][en], overlap=ov), dict(n_tasks=3)]
+        calls = [dict(n_tasks=n, pulls=pl, end=["close", "drop", "exhaust"][en], overlap=ov,
+                      slow_at=H.P("slow_at")), dict(n_tasks=3)]
         pre = [(p0, 0)] if p0 >= 0 else []
         o = parlib.run(_cfg(H.PARAMS, calls), dict(preempt=pre, picks=[pkv]))
         probs = _common(o)
@@ -264,6 +265,13 @@ def obligations(tier, seed):
                                 "timeout": 900,
                                 "bounds": "6 tasks, pulls in %s, then %s; overlapping call attempted; one pre-emption anywhere, "
                                           "2 picks; then a 3-task call" % ([0, 1, 3, 6], ["close()", "drop", "keep consuming to the end"][en])})
+        # a lazy input producer that is slow at its third item: the callback thread sits inside the input iterator
+        # (inside dispatch_one_batch) while the consumer closes / drops the generator
+        obs.append({"name": "abandon_slow_input/%s" % be, "fn": "ob_abandon", "mode": "S",
+                    "params": {"backend": be, "return_as": "generator", "use_with": False, "end": 0, "slow_at": 2,
+                               "pull_counts": [0, 1, 2, 3]}, "timeout": 900,
+                    "bounds": "6 tasks, the input iterator blocks at item 2 until the run is being aborted; 0..3 pulls then "
+                              "close(); one pre-emption anywhere; then a 3-task call"})
         obs.append({"name": "leave_with/%s" % be, "fn": "ob_leave_with", "mode": "S",
                     "params": {"backend": be, "return_as": "generator"}, "timeout": 600,
                     "bounds": "with-block left after 0/1/2/4 pulls of 6 with the generator alive; second call must raise; "
